@@ -73,6 +73,26 @@ CLAIMED = {
              "a ~60-value pool, bit-exact.",
         design_ref="DESIGN.md 5 C10",
     ),
+    'C17': dict(
+        technique="Coq proof over a model regenerated from date_time.py by the Python-AST translator on top of a "
+                  "transcription of CPython's calendar algorithms, with an exhaustive kernel-computed calendar "
+                  "sweep; binary64 time-of-day in Coq primitive floats; differential runs against the real functions",
+        text="Gen/date_time.v (date_from_int, is_leap_year, max_days_in_month, normalize_year, date, months_inc, "
+             "edate, eomonth, year/month/day/weekday, yearfrac) is re-translated from /repo/src/pycel/lib/"
+             "date_time.py on every run over Lib/PyDate.v (_ymd2ord/_ord2ymd/monthrange transcribed). Proved: "
+             "C17_roundtrip DATE(YEAR n, MONTH n, DAY n) = n for EVERY serial day 0..2958465 (symbolic execution "
+             "of the generated code for n > 60 + the calendar fact C17_gregorian, which is established by "
+             "vm_compute over all 2 958 405 days in 16 chunks; days 0..60 by computation); C17_parts (n > 60: "
+             "the parts are those of 1899-12-30 + n); C17_phantom_days (day 60 = 1900-02-29, day 0 = 1900-01-00); "
+             "C17_weekday (period 7, range 1..7, all integers); C17_normalize_valid; C17_month_carry (12 months "
+             "= 1 year in the carry arithmetic); C17_time: HOUR/MINUTE/SECOND(s/86400) for all 86400 seconds in "
+             "IEEE binary64 (PrimFloat; depends on the kernel's primitive float/int operations, listed in the "
+             "evidence). Not proved (differential run + oracle only): day carry DATE(y,m,d)=DATE(y,m,1)+d-1 "
+             "(a known finding for d <= 0), EOMONTH/EDATE end-to-end, YEARFRAC symmetry, #NUM! for out-of-range "
+             "results. The PrimFloat model is hand-written: its tie is the exhaustive comparison of all 86400 "
+             "inputs with the implementation on every run.",
+        design_ref="DESIGN.md 5 C17",
+    ),
     'C19': dict(
         technique="Coq proof over a model regenerated from excellib.py by the Python-AST translator (exact "
                   "rational arithmetic), plus extracted-model/implementation differential run on decimal and "
